@@ -51,6 +51,7 @@ type Disk struct {
 	FailErr   string // "eio" | "enospc"
 	FailShort bool   // write a prefix of the buffer before failing
 	FailOnly  string // restrict FailAt counting to this path ("" = all files)
+	FailExcept string // when set: count every file EXCEPT this path (e.g. the big writer's temp DB)
 	Fired     int
 
 	FailOpen map[string]string // path -> error kind: BoltOpened turns a successful open into an error
@@ -153,7 +154,7 @@ func (d *Disk) write(fl *FileLog, db *bbolt.DB, file *os.File, orig func([]byte,
 	d.mu.Lock()
 	idx := d.NWrite
 	d.NWrite++
-	counts := d.FailOnly == "" || d.FailOnly == fl.Path
+	counts := (d.FailOnly == "" || d.FailOnly == fl.Path) && (d.FailExcept == "" || d.FailExcept != fl.Path)
 	fail := false
 	if counts {
 		if d.nfail == d.FailAt {
@@ -304,6 +305,7 @@ var (
 	procKillAt int64 = -1
 	procLog    *os.File
 	procCount  int64
+	procFiles  int
 	procMu     sync.Mutex
 )
 
@@ -328,12 +330,23 @@ func procFaultProxy(db *bbolt.DB) (*bbolt.DB, error) {
 	}
 	slot := (*func([]byte, int64) (int, error))(unsafe.Pointer(f.UnsafeAddr()))
 	orig := *slot
+	// one letter per file, in the order the files were opened; the names go to <log>.files
+	procMu.Lock()
+	tag := byte('A' + procFiles%26)
+	procFiles++
+	if p := os.Getenv("VERIF_WRITE_LOG"); p != "" {
+		if ff, e := os.OpenFile(p+".files", os.O_CREATE|os.O_APPEND|os.O_WRONLY, 0o644); e == nil {
+			fmt.Fprintf(ff, "%c %s\n", tag, db.Path())
+			ff.Close()
+		}
+	}
+	procMu.Unlock()
 	*slot = func(b []byte, off int64) (int, error) {
 		procMu.Lock()
 		procCount++
 		n := procCount
 		if procLog != nil {
-			_, _ = procLog.Write([]byte{'w'})
+			_, _ = procLog.Write([]byte{tag})
 		}
 		procMu.Unlock()
 		if n == procKillAt {
